@@ -361,10 +361,9 @@ func (c *Ctx) boundsObligations(rule string, fn *ssa.Function) (int, int) {
 	name := c.name(fn)
 	ok, bad := 0, 0
 	prove := func(in ssa.Instruction, what string, goals ...lin.Cons) {
-		facts := lf.FactsAt(in.Block())
 		var failed []string
 		for _, g := range goals {
-			if !lin.Prove(facts, g) {
+			if !lf.ProveAt(in.Block(), g) {
 				// configuration-only lower bounds (captured constructor arguments): A-domain
 				if isConfigOnly(g.E) {
 					c.R.Exempt(name+" "+what, "the bound involves only captured constructor arguments ("+g.E.String()+" >= 0): outside the documented domain otherwise (A-domain)")
@@ -380,7 +379,7 @@ func (c *Ctx) boundsObligations(rule string, fn *ssa.Function) (int, int) {
 		} else {
 			bad++
 			var fs []string
-			for _, f := range facts {
+			for _, f := range lf.FactsAt(in.Block()) {
 				if len(fs) < 12 {
 					fs = append(fs, f.E.String()+" >= 0 ("+f.Why+")")
 				}
@@ -510,10 +509,9 @@ func (c *Ctx) ruleR09b(rule string) {
 				continue
 			}
 			cur := lf.NormElem(cl.Call.Args[1])
-			facts := lf.FactsAt(ret.Block())
 			g1 := lin.Ge(cur, lin.Const(0), "cursor >= 0")
 			g2 := lin.Ge(flen, cur, "cursor <= File.len")
-			if lin.Prove(facts, g1) && lin.Prove(facts, g2) {
+			if lf.ProveAt(ret.Block(), g1) && lf.ProveAt(ret.Block(), g2) {
 				c.R.Hold(rule, site, "File.Pos("+cur.String()+") with 0 <= cursor <= File.len")
 			} else {
 				c.R.Undecided(rule, name+" returned position unproven", name, c.P.InstrPos(ret), "cannot prove that the returned position File.Pos("+cur.String()+") lies within the file: the primitive may hand out a position past the end of the file")
